@@ -40,12 +40,22 @@ add("C19", "model_checking",
     "The concurrent register/unregister/dial part is decided by the govs engine (controlled scheduler over the rewritten transport package); until that part reports registry_* keys in the evidence only the parsing and refusal clauses are decided by this check.",
     "bounded-exhaustive tuple and raw-string enumeration (parsing); schedule exploration of the registry via govs", "seq+govs", "DESIGN.md §5 C19")
 
+add("C01", "model_checking",
+    "Two real fbb.Sessions exchange over a deterministic duplex link (only the baton holder runs; every Read result is a function of stream content and the segmentation plan). Deviation-bounded product (<= 2 non-default components, thorough <= 3) over message-set shapes both ways (0..16 messages, 24 message variants incl. compressed sizes at exact multiples of 125, attachments, Latin-1, precedence, long titles, short/equal MIDs), 108 answer-policy patterns (all 3^n for n<=4), role, MOTD, GZIP_EXPERIMENT per side, batched/plain handlers, 13 segmentation plans, plus every single read-cut offset in both directions for base scenarios. Oracle: exactly-once byte-identical delivery, SetSent/SetDeferred per answer, stats, nil errors, Close, <=5 proposals per block, one framed transfer per accepted proposal on the wire.",
+    "Handlers follow the MBoxHandler doc contract. Schedules: the two stations form a Kahn network over FIFO streams, so timing is reduced to segmentation, which is enumerated; the progress-reporter goroutines are inert without a StatusUpdater (C17 covers them).",
+    "stateless exploration of two real Sessions on a deterministic link; deviation-bounded scenario product x segmentation plans", "link", "DESIGN.md §5 C01")
+add("C05", "model_checking",
+    "A real Session talks to an independently written strict B2F peer (validates SID, ;FW, handshake comment, prompt, proposal syntax and block checksum, <=5 per block, precedence-then-size order within and across blocks, one answer per proposal, SOH/STX/EOT framing, title 1..80 printable ASCII, offset, EOT checksum, CRC-16+size payload decoded by the reference LZHUF, FF/FQ rules, nothing after FQ). Deviation-bounded product (<=2, thorough partly <=3) over 18 components incl. every data block size 1..256 and cycling, every answer spelling, comment/;PM placement, MOTD, ;FW with hashes, six SIDs, CMS-style early FQ, duplicate MIDs, checksum case, role, library configuration and segmentation. Oracle: no complaint, nil error, handler callbacks as the protocol prescribes.",
+    "The peer is written from docs/F6FBB-B2F + DESIGN.md App. E.2/H. Answer E excluded. Early FQ only after the Session said FF (as the CMS does).",
+    "stateless exploration against an independent reference peer; deviation-bounded product over peer encoding choices", "link", "DESIGN.md §5 C05")
+
 ids = [json.loads(l)["id"] for l in open("/verif/properties.jsonl")]
 na = [dict(property_id=i, reason="check not built yet in this session (planned, see DESIGN.md §5); not claimed until its command exists and is green") for i in ids if i not in checks]
 m = dict(version=1,
     setup_cmd="cd /verif && ./setup.sh",
     hooks=dict(guard="verif", enable="no source hooks in /repo: instrumentation is generated from the working tree at check time and applied with `go build -overlay <generated>.json -tags verif`", baseline_off_cmd=BASE, source_commits=[], add_only=True),
     engines=[
+        dict(name="link", path="link/ sess/ ref/b2f/", serves_properties=["C01","C02","C03","C04","C05","C16"], kind_free_text="two-party deterministic link (baton scheduler, segmentation/cut plans, scripted remotes) driving real fbb.Sessions in isolated worker processes"),
         dict(name="seq", path="props/", serves_properties=["C06","C07","C08","C09","C10","C12","C16","C18","C19","C20"], kind_free_text="bounded-exhaustive enumeration / explicit-state BFS over the real sequential code"),
     ],
     checks=[checks[k] for k in sorted(checks)],
